@@ -231,6 +231,7 @@ func sortU(a []uint32) {
 }
 
 func run(c Case) (v *vcore.Violation, stt stats) {
+	vcore.Journal(c)
 	d := stack.NewModelDriver()
 	d.UpdateReports = true
 	quiet := map[uint32]bool{}
